@@ -81,17 +81,24 @@ pub struct TProgram {
     pub clients: Vec<Vec<SymReq>>,
     pub keys: Vec<Vec<u8>>,
     pub sched: SchedSpec,
+    /// commands run one after the other once every client has finished (C14:
+    /// the sequential bound must hold again after the concurrent phase)
+    pub settle: Vec<SymReq>,
 }
 
 impl TProgram {
     pub fn to_json(&self) -> Value {
-        json!({
+        let mut v = json!({
             "knobs": self.knobs.to_json(),
             "init": self.init.iter().map(|i| i.to_json()).collect::<Vec<_>>(),
             "clients": self.clients.iter().map(|c| c.iter().map(|r| r.to_json()).collect::<Vec<_>>()).collect::<Vec<_>>(),
             "keys": self.keys.iter().map(|k| wire::hex(k)).collect::<Vec<_>>(),
             "sched": self.sched.to_json(),
-        })
+        });
+        if !self.settle.is_empty() {
+            v["settle"] = Value::Array(self.settle.iter().map(|r| r.to_json()).collect());
+        }
+        v
     }
     pub fn from_json(v: &Value) -> Option<TProgram> {
         let knobs = Knobs::from_json(v.get("knobs")?)?;
@@ -111,12 +118,19 @@ impl TProgram {
         for k in v.get("keys")?.as_array()? {
             keys.push(wire::unhex(k.as_str()?)?);
         }
+        let mut settle = Vec::new();
+        if let Some(a) = v.get("settle").and_then(|x| x.as_array()) {
+            for r in a {
+                settle.push(SymReq::from_json(r)?);
+            }
+        }
         Some(TProgram {
             knobs,
             init,
             clients,
             keys,
             sched: SchedSpec::from_json(v.get("sched")?)?,
+            settle,
         })
     }
 }
@@ -142,11 +156,14 @@ pub struct THistory {
     /// sequential reads of every key after all clients finished
     pub final_reads: Vec<(Request, Option<Response>)>,
     pub report: RunReport,
+    /// when every client had finished (before the settle commands and the final reads)
     pub stored_bytes_end: u64,
     pub items_end: u64,
     pub accounted_end: Option<u64>,
     pub init_violations: Vec<crate::model::Violation>,
     pub start_stored_bytes: u64,
+    /// after each settle command: (stored bytes, size of the record it wrote, acknowledged)
+    pub settle: Vec<(u64, u64, bool)>,
 }
 
 fn exec_one(codec: &mut MemcacheBinaryCodec, handler: &BinaryHandler, bytes: &[u8]) -> Option<Response> {
@@ -289,6 +306,19 @@ pub fn run_program(p: &TProgram, budget: u32) -> THistory {
     }
     let mut ops = results.lock().unwrap().clone();
     ops.sort_by_key(|o| (o.inv, o.client, o.index));
+    let after_clients = stack.probe();
+    // ---- sequential settle commands
+    let mut settle = Vec::new();
+    if report.abort.is_none() && !report.timed_out {
+        let mut codec = MemcacheBinaryCodec::new(p.knobs.item_limit);
+        let handler = BinaryHandler::new(store.clone());
+        for sr in &p.settle {
+            let lit = sr.materialise(&model);
+            let resp = exec_one(&mut codec, &handler, &lit.encode());
+            let ok = resp.as_ref().map(|r| r.status == 0).unwrap_or(false);
+            settle.push((stack.probe().stored_bytes, 24 + lit.value.len() as u64, ok));
+        }
+    }
     // ---- final sequential reads
     let mut final_reads = Vec::new();
     if report.abort.is_none() && !report.timed_out {
@@ -307,11 +337,12 @@ pub fn run_program(p: &TProgram, budget: u32) -> THistory {
         ops,
         final_reads,
         report,
-        stored_bytes_end: probe.stored_bytes,
-        items_end: probe.items,
+        stored_bytes_end: after_clients.stored_bytes,
+        items_end: after_clients.items,
         accounted_end: probe.accounted,
         init_violations,
         start_stored_bytes,
+        settle,
     }
 }
 
